@@ -2,7 +2,7 @@
 //! frame) — per-step monitors of the observer replica.
 
 use super::asm::*;
-use super::exec::Vm;
+use super::exec::{Pre, Vm};
 use super::observer::*;
 use crate::kernel::Stats;
 use fuel_asm::{Opcode as O, PanicReason as P};
@@ -207,12 +207,28 @@ struct Saved {
 #[derive(Default)]
 pub struct FrameMonitor {
     stack: Vec<Saved>,
+    /// The caller's protected region as it was before the CALL instruction ran.
+    pre_call: Option<Vec<u8>>,
     pub max_depth: usize,
     pub recursive: bool,
     pub retd_len: bool,
 }
 
 impl Monitor for FrameMonitor {
+    fn before(&mut self, vm: &mut Vm, pre: &Pre) {
+        self.pre_call = None;
+        let Some(word) = pre.word else { return };
+        if !valid(word) || opcode_of(word) != Some(O::CALL) {
+            return;
+        }
+        let r = &pre.regs;
+        let lo = if r[FP as usize] == 0 { r[SSP as usize] } else { r[FP as usize] };
+        let hi = r[SP as usize];
+        if hi >= lo {
+            self.pre_call = vm.memory().read(lo, (hi - lo) as usize).ok().map(|b| b.to_vec());
+        }
+    }
+
     fn after(&mut self, vm: &mut Vm, info: &StepInfo, stats: &mut Stats) -> Option<Viol> {
         if info.errored {
             return None;
@@ -227,7 +243,20 @@ impl Monitor for FrameMonitor {
             let hi = pre[SP as usize];
             // the memory between lo and the old $sp is untouched by CALL itself
             let bytes = vm.memory().read(lo, (hi - lo) as usize).map(|b| b.to_vec()).unwrap_or_default();
+            if let Some(b0) = self.pre_call.take() {
+                if b0 != bytes {
+                    let at = b0.iter().zip(bytes.iter()).position(|(a, b)| a != b).unwrap_or(0) as u64 + lo;
+                    return Some((
+                        "caller-stack-modified".into(),
+                        "caller-stack-modified:by-call".into(),
+                        format!("step {step}: CALL itself changed byte {at} of the caller's region [{lo}, {hi})"),
+                    ));
+                }
+            }
             let fp = post[FP as usize];
+            if fp != hi {
+                return Some(("call-frame".into(), "call-frame:position".into(), format!("step {step}: the call frame was placed at $fp={fp}, the caller's $sp was {hi}")));
+            }
             let frame = match vm.memory().read(fp, CallFrame::serialized_size()) {
                 Ok(b) => b.to_vec(),
                 Err(_) => return Some(("call-frame".into(), "call-frame:unreadable".into(), format!("step {step}: call frame at $fp={fp} is not readable"))),
